@@ -141,15 +141,22 @@ def r10_3(ctx):
             ctx.check(ok, "%s.set_initial: target at node k receives column k" % cname, detail="array guess column given to another node/interval",
                       expected="for k in range(N)+[-1]: target = eval_at_control(stage, var, k); value_k = value[:,k] when the array has N or N+1 columns", found=ast.unparse(c), fi=f, node=c)
         # expression guesses are sampled on the same node sequence
-        hc = [c for c in walk_no_nested(f.node) if isinstance(c, ast.Call) and ast.unparse(c.func) in ("ca.hcat", "hcat") and c.args and isinstance(c.args[0], ast.ListComp)
-              and "eval_at_control(stage, expr" in ast.unparse(c.args[0].elt)]
+        # the sampling of an expression guess may live in set_initial itself or in a private helper it calls
+        hosts = [f] + [g for c in walk_no_nested(f.node) if isinstance(c, ast.Call) and isinstance(c.func, ast.Attribute) and ast.unparse(c.func.value) == "self"
+                       and c.func.attr.startswith("_") for g in [P.resolve(cname, c.func.attr)] if g is not None]
+        hc = []
+        for host in hosts:
+            ev_name = None
+            hc += [c for c in walk_no_nested(host.node) if isinstance(c, ast.Call) and ast.unparse(c.func) in ("ca.hcat", "hcat") and c.args and isinstance(c.args[0], ast.ListComp)
+                   and is_call_to(c.args[0].elt, "eval_at_control", "self") and len(c.args[0].elt.args) == 3 and isinstance(c.args[0].elt.args[1], ast.Name)
+                   and c.args[0].elt.args[1].id not in ("var",)]
         okh = len(hc) >= 1
         for c in hc:
             lc0 = c.args[0]
             from ..loops import classify_iter
             kind, _ = classify_iter(lc0.generators[0].iter, n)
             kv = lc0.generators[0].target.id
-            okh = okh and ast.unparse(lc0.elt) == "self.eval_at_control(stage, expr, %s)" % kv and kind in ("N+final", "N")
+            okh = okh and ast.unparse(lc0.elt.args[2]) == kv and (kind in ("N+final", "N") or isinstance(lc0.generators[0].iter, ast.Name))
         ctx.check(okh, "%s.set_initial samples an expression guess on the node sequence" % cname, detail="expression guess sampled on other nodes", expected="hcat([eval_at_control(stage, expr, k) for k in range(N)+[-1]])",
                   found="; ".join(ast.unparse(c)[:80] for c in hc), fi=f)
     # DirectCollocation: repetition of columns over integrator points and roots
@@ -214,7 +221,8 @@ def r10_5(ctx):
         ctx.check(ok, "Stage.set_initial orders prioritised guesses first", detail="ordering", expected="if priority: self._initial.move_to_end(var, last=False)", found="; ".join(ast.unparse(m) for m in mv), fi=g)
     sc = ctx.scope(f)
     wt = [c for c in walk_no_nested(f.node) if is_call_to(c, "set_initial", "self._method")]
-    ok = len(wt) == 1 and [ast.unparse(t) for t, p in sc.guards(wt[0]) if p] == ["self.master is not None and self.master.is_transcribed"]
+    nf = ctx.norm(f)
+    ok = len(wt) == 1 and [nf.key(t) for t, p in sc.guards(wt[0]) if p] == [Norm(None).key(ast.parse("self.master is not None and self.master.is_transcribed", mode="eval").body)]
     fa = [c for c in walk_no_nested(f.node) if is_call_to(c, "for_all_primitives")]
     ok = ok and len(fa) == 1 and sc.order[fa[0]] < sc.order[wt[0]]
     ctx.check(ok, "Stage.set_initial re-applies the guesses to a live transcription after recording them", detail="guess given after transcription not applied (or applied before it is recorded)",
